@@ -2101,7 +2101,7 @@ func (l *Loader) loadByContext(ctx context.Context, source DataSource, fetchItem
 		}
 
 		if item.err != nil {
-			if leaderCancelled(ctx, item.err) {
+			if leaderCancelled(ctx, item.err) || (item.leaderGone && ctx.Err() == nil) {
 				// The leader's own client went away; that is not a failure of this request.
 				// Load on our own instead of failing with somebody else's cancellation.
 				return l.loadByContextDirect(ctx, source, headers, input, res)
@@ -2137,6 +2137,9 @@ func (l *Loader) loadByContext(ctx context.Context, source DataSource, fetchItem
 	err := l.loadByContextDirect(ctx, source, headers, input, res)
 	if err != nil {
 		item.err = err
+		// the leader's own context ended (its client went away, or its deadline passed):
+		// the error is the leader's, the followers load on their own
+		item.leaderGone = ctx.Err() != nil
 		return err
 	}
 
